@@ -60,7 +60,7 @@ func TestC19(t *testing.T) {
 	r := mc.NewRun(t, "C19", mc.Exploration)
 	r.Rule = "all 2^26 values of (CurrINF,CurrHF,SegLen0..2) with RSV=0 plus an RSV=0x3f stripe; every case is a distinct " +
 		"integer; non-trivial = accepted by the spec (valid shape). Reversal: every valid shape up to the tier's hop bound x " +
-		"every in-range (CurrINF matching CurrHF) pointer x 2 filler patterns"
+		"every in-range pointer pair (CurrINF, CurrHF), consistent or not, x filler patterns"
 	var mism atomic.Int64
 	report := func(key string, line uint32, detail string) {
 		mism.Add(1)
@@ -177,66 +177,72 @@ func TestC19(t *testing.T) {
 		n, ninf := m.numHops(), m.numINF()
 		for filler := 0; filler < 2; filler++ {
 			for hf := 0; hf < n; hf++ {
-				m.currHF, m.currINF = hf, m.segOf(hf)
-				buf := buildPath(m, filler)
-				orig := append([]byte{}, buf...)
-				// spec reversal, computed on bytes independently
-				want := specReverse(m, orig)
-				var d scion.Decoded
-				if err := d.DecodeFromBytes(buf); err != nil {
-					report("rev-decode", 0, fmt.Sprintf("shape %v: %v", sh, err))
-					continue
+				for inf := 0; inf < ninf; inf++ {
+					// every in-range pointer pair, also those where CurrINF is not the segment of CurrHF: the decoder
+					// accepts them and "reversing twice restores it" is stated for every decoded path
+					if inf != m.segOf(hf) && filler == 1 {
+						continue // inconsistent pointers with the first filler only
+					}
+					m.currHF, m.currINF = hf, inf
+					buf := buildPath(m, filler)
+					orig := append([]byte{}, buf...)
+					// spec reversal, computed on bytes independently
+					want := specReverse(m, orig)
+					var d scion.Decoded
+					if err := d.DecodeFromBytes(buf); err != nil {
+						report("rev-decode", 0, fmt.Sprintf("shape %v: %v", sh, err))
+						continue
+					}
+					p, err := d.Reverse()
+					if err != nil {
+						report("rev-err", 0, fmt.Sprintf("shape %v: %v", sh, err))
+						continue
+					}
+					got := make([]byte, p.Len())
+					if err := p.SerializeTo(got); err != nil || !bytes.Equal(got, want) {
+						report("rev-decoded-vs-spec", 0, fmt.Sprintf("shape %v hf %d: got %x want %x", sh, hf, got, want))
+					}
+					var rw scion.Raw
+					cp := append([]byte{}, orig...)
+					if err := rw.DecodeFromBytes(cp); err != nil {
+						report("rev-raw-decode", 0, err.Error())
+						continue
+					}
+					rp, err := rw.Reverse()
+					if err != nil {
+						report("rev-raw-err", 0, err.Error())
+						continue
+					}
+					got2 := make([]byte, rp.Len())
+					if err := rp.SerializeTo(got2); err != nil || !bytes.Equal(got2, want) {
+						report("rev-raw-vs-decoded", 0, fmt.Sprintf("shape %v hf %d: raw %x decoded %x", sh, hf, got2, want))
+					}
+					// twice = identity (both representations)
+					p2, err := p.Reverse()
+					if err != nil {
+						report("rev2-err", 0, err.Error())
+						continue
+					}
+					back := make([]byte, p2.Len())
+					p2.SerializeTo(back)
+					if !bytes.Equal(back, orig) {
+						report("rev-twice-decoded", 0, fmt.Sprintf("shape %v hf %d", sh, hf))
+					}
+					rp2, err := rp.Reverse()
+					if err != nil {
+						report("rev2-raw-err", 0, err.Error())
+						continue
+					}
+					back2 := make([]byte, rp2.Len())
+					rp2.SerializeTo(back2)
+					if !bytes.Equal(back2, orig) {
+						report("rev-twice-raw", 0, fmt.Sprintf("shape %v hf %d", sh, hf))
+					}
+					revCases.Add(1)
 				}
-				p, err := d.Reverse()
-				if err != nil {
-					report("rev-err", 0, fmt.Sprintf("shape %v: %v", sh, err))
-					continue
-				}
-				got := make([]byte, p.Len())
-				if err := p.SerializeTo(got); err != nil || !bytes.Equal(got, want) {
-					report("rev-decoded-vs-spec", 0, fmt.Sprintf("shape %v hf %d: got %x want %x", sh, hf, got, want))
-				}
-				var rw scion.Raw
-				cp := append([]byte{}, orig...)
-				if err := rw.DecodeFromBytes(cp); err != nil {
-					report("rev-raw-decode", 0, err.Error())
-					continue
-				}
-				rp, err := rw.Reverse()
-				if err != nil {
-					report("rev-raw-err", 0, err.Error())
-					continue
-				}
-				got2 := make([]byte, rp.Len())
-				if err := rp.SerializeTo(got2); err != nil || !bytes.Equal(got2, want) {
-					report("rev-raw-vs-decoded", 0, fmt.Sprintf("shape %v hf %d: raw %x decoded %x", sh, hf, got2, want))
-				}
-				// twice = identity (both representations)
-				p2, err := p.Reverse()
-				if err != nil {
-					report("rev2-err", 0, err.Error())
-					continue
-				}
-				back := make([]byte, p2.Len())
-				p2.SerializeTo(back)
-				if !bytes.Equal(back, orig) {
-					report("rev-twice-decoded", 0, fmt.Sprintf("shape %v hf %d", sh, hf))
-				}
-				rp2, err := rp.Reverse()
-				if err != nil {
-					report("rev2-raw-err", 0, err.Error())
-					continue
-				}
-				back2 := make([]byte, rp2.Len())
-				rp2.SerializeTo(back2)
-				if !bytes.Equal(back2, orig) {
-					report("rev-twice-raw", 0, fmt.Sprintf("shape %v hf %d", sh, hf))
-				}
-				_ = ninf
-				revCases.Add(1)
 			}
 		}
-		r.CaseBulk(int64(2*n), int64(2*n))
+		r.CaseBulk(int64(n*(ninf+1)), int64(n*(ninf+1)))
 	})
 	r.Extra["reversal_shapes"] = len(shapes)
 	r.Extra["reversal_cases"] = revCases.Load()
